@@ -941,8 +941,15 @@ static unsigned long __plthook_entry(unsigned long *ret_addr, unsigned long chil
 		skip = true;
 
 		/* but if we don't have rstack, just bail out */
-		if (filtered == FILTER_RSTACK)
+		if (filtered == FILTER_RSTACK) {
+			/*
+			 * Without an exit hook nobody restores the PLT entry:
+			 * resolve the function here so that the resolver is
+			 * not run and the entry keeps pointing to the hook.
+			 */
+			resolve_pltgot(pd, child_idx);
 			goto out;
+		}
 		if (mcount_estimate_return)
 			goto out;
 	}
